@@ -64,9 +64,16 @@ Ans(fs, q) ==
 (* get_size of a directory is not judged, a read below a regular file may    *)
 (* answer NotADirectoryError (the OS's own answer on a from-scratch tree).   *)
 BelowFile(fs, p) == \E a \in ProperAnc(p) : IsFile(fs, a)
+(* Directories that exist only to hold the cache file: when they become visible is not pinned by the    *)
+(* contract (C04), so queries on them, and listings / walks that would show them, are not judged, and   *)
+(* records containing such queries are judged in neither direction (fuzzy).                              *)
+CacheDirs == ProperAnc(CachePath) \ {Root}
+TouchesCacheDirs(q) ==
+  \E c \in CacheDirs : IsPrefix(c, q.p) \/ (q.kind \in {"list_dir", "walk"} /\ IsPrefix(q.p, c))
 AnsMatches(fs, q, res) ==
   LET a == Ans(fs, q) IN
-  IF ~a.ok THEN
+  IF TouchesCacheDirs(q) THEN TRUE
+  ELSE IF ~a.ok THEN
       ~res.ok /\ (res.err = a.err \/
                   (q.kind = "read" /\ BelowFile(fs, q.p) /\ res.err = "NotADirectoryError"))
   ELSE res.ok /\
@@ -126,7 +133,11 @@ AllRecs(ops) ==
 RecOuts(tree) == {r.p : r \in {x \in AllRecs(tree) : x.k = "bf" /\ ~x.raised}}
 
 VerEq(s, f) == Eq(VerOf(s.rec.vers, f), VerOf(s.vers, f))
-Intact(s, r) == IsFile(s.pre, r.p) /\ CmpVal(s.pre[r.p], r.cmp) = r.cres
+(* A recorded output is intact if the file found at the start of the build still matches the recorded *)
+(* comparison result and the build itself has not moved it out of the way since (s.gone: stale outputs  *)
+(* below a path that became a file, or at a path that became a directory, in this build).               *)
+Intact(s, r) == r.p \notin s.gone /\ IsFile(s.pre, r.p) /\ CmpVal(s.pre[r.p], r.cmp) = r.cres
+GoneBy(s, p) == {q \in s.rec.outs : IsFile(s.pre, q) /\ (IsProperPrefix(p, q) \/ IsProperPrefix(q, p))}
 
 (***************************************************************************)
 (* Replay: simulate a from-scratch execution of a recorded operation on    *)
@@ -138,7 +149,7 @@ RECURSIVE ReplayOp(_, _, _)
 ReplayOp(s, op, S) ==
   IF ~S.ok THEN S
   ELSE IF op.k = "q" THEN
-    IF op.ans.dirsize THEN [S EXCEPT !.fuzzy = TRUE]
+    IF op.ans.dirsize \/ TouchesCacheDirs(op.q) THEN [S EXCEPT !.fuzzy = TRUE]
     ELSE [S EXCEPT !.ok = (Ans(View(S.bfs, S.live, S.outs), op.q) = op.ans)]
   ELSE IF op.k = "bf" THEN
     LET fs == View(S.bfs, S.live, S.outs)
@@ -221,7 +232,7 @@ InitState == [ph |-> "idle", disk |-> [p \in {Root} |-> DirNode], rec |-> NoRec,
               pre |-> EmptyFs, v0dirs |-> {}, bfs |-> EmptyFs, live |-> {}, outs |-> EmptyFs,
               claimedF |-> {}, claimedS |-> {}, stack |-> <<>>, vers |-> TDict(<<>>),
               name |-> "", pend |-> NoPend, refuse |-> FALSE, builds |-> 0,
-              targets |-> {}, reused |-> {}, kfdirs |-> {},
+              targets |-> {}, reused |-> {}, kfdirs |-> {}, gone |-> {},
               st |-> [q |-> 0, inv |-> 0, invfound |-> 0, reuse |-> 0, sfail |-> 0, commit |-> 0,
                       rollback |-> 0, clean |-> 0, refuse |-> 0, nestedreuse |-> 0, failrec |-> 0]]
 
@@ -341,9 +352,11 @@ CheckEnd(s, e) ==
 FinalView(s) == SView(s)
 (* final tree, strict and with the latitude of known finding KF-dup-reuse-leaves-dirs (extra empty *)
 (* directories that a rejected concurrent duplicate re-created for the nested outputs of its record) *)
-FinalTreeStrict(s, d) == Remove(d, {CachePath}) = FinalView(s)
+CacheDirsMade(s) == CacheDirs \ DOMAIN FinalView(s)       \* made for the cache file only
+FinalTreeStrict(s, d) == /\ Remove(d, {CachePath} \cup CacheDirsMade(s)) = FinalView(s)
+                         /\ \A c \in CacheDirs : IsDir(d, c)
 FinalTreeKF(s, d) ==
-  LET dd == Remove(d, {CachePath})
+  LET dd == Remove(d, {CachePath} \cup CacheDirsMade(s))
       extra == DOMAIN dd \ DOMAIN FinalView(s)
   IN /\ \A p \in extra : dd[p].t = "dir" /\ p \in s.kfdirs
      /\ Remove(dd, extra) = FinalView(s)
@@ -481,7 +494,7 @@ ApplyRootBegin(s, e) ==
   [s EXCEPT !.ph = "build", !.pre = s.disk, !.bfs = v0, !.v0dirs = Dirs(v0), !.live = {},
             !.outs = EmptyFs, !.claimedF = {}, !.claimedS = {},
             !.stack = <<Frame("root", <<>>, "", TList(<<>>), TDict(<<>>), "")>>,
-            !.pend = NoPend, !.targets = {}, !.reused = {}, !.kfdirs = {}]
+            !.pend = NoPend, !.targets = {}, !.reused = {}, !.kfdirs = {}, !.gone = {}]
 
 ApplyQ(s, e) ==
   PushSub([s EXCEPT !.st.q = @ + 1],
@@ -515,7 +528,7 @@ ApplyInvoke(s, e) ==
       fr == Frame(pd.kind, pd.p, pd.f, San(pd.args), San(pd.kw), pd.cmp)
       s1 == IF pd.kind = "bf"
             THEN [s EXCEPT !.live = @ \cup {pd.p}, !.bfs = Remove(@, {pd.p}),
-                           !.claimedF = @ \cup {pd.p}]
+                           !.claimedF = @ \cup {pd.p}, !.gone = @ \cup GoneBy(s, pd.p)]
             ELSE [s EXCEPT !.claimedS = @ \cup {SBKeyOf(pd.f, pd.args, pd.kw)}]
   IN [s1 EXCEPT !.stack = Append(@, fr), !.pend = NoPend, !.st.inv = @ + 1,
                 !.st.invfound = @ + (IF pd.lk.found THEN 1 ELSE 0)]
@@ -532,7 +545,7 @@ ApplyEnd(s, e) ==
       LET r == pd.lk.r
           s1 == IF pd.kind = "bf"
                 THEN [s EXCEPT !.live = @ \cup {pd.p}, !.bfs = Remove(@, {pd.p}),
-                               !.claimedF = @ \cup {pd.p},
+                               !.claimedF = @ \cup {pd.p}, !.gone = @ \cup GoneBy(s, pd.p),
                                !.outs = Put(@, pd.p, NodeAt(s.pre, pd.p))]
                 ELSE [s EXCEPT !.claimedS = @ \cup {SBKey(r)}]
           st == ApplyOps(s, r.subs, 1, [live |-> s1.live, outs |-> s1.outs, bfs |-> s1.bfs,
@@ -543,6 +556,7 @@ ApplyEnd(s, e) ==
           s2 == [s1 EXCEPT !.live = st.live, !.outs = st.outs, !.bfs = st.bfs,
                            !.claimedF = st.claimedF, !.claimedS = st.claimedS, !.pend = NoPend,
                            !.targets = @ \cup st.claimedF,
+                           !.gone = @ \cup UNION {GoneBy(s, x.p) : x \in {y \in AllRecs(r.subs) : y.k = "bf" /\ ~y.sf}},
                            !.reused = @ \cup (DOMAIN st.outs \ DOMAIN s.outs),
                            !.st.reuse = @ + 1,
                            !.st.nestedreuse = @ + (IF \E i \in DOMAIN r.subs : r.subs[i].k # "q" THEN 1 ELSE 0),
@@ -574,7 +588,7 @@ ApplyBuildEnd(s, e) ==
           nrec == [valid |-> TRUE, name |-> s.name, vers |-> s.vers, tree |-> fr.subs,
                    outs |-> RecOuts(fr.subs),
                    \* under KF-dup-reuse-leaves-dirs the leftover directories are recorded as created
-                   cdirs |-> (Dirs(fv) \ s.v0dirs) \cup
+                   cdirs |-> ((Dirs(fv) \cup CacheDirs) \ s.v0dirs) \cup
                              (IF "KF-dup-reuse-leaves-dirs" \in OpenKF
                               THEN (Dirs(d) \ Dirs(fv)) \cap s.kfdirs ELSE {}),
                    ser |-> e.cser]
